@@ -19,7 +19,7 @@ def run(rep, kf, tier, seed):
     from pyvc import engine_b
     import contracts.param_conflicts as pc
     import contracts.registration as creg
-    engine_b.discharge(rep, kf, [pc.conflicts_contract()] + creg.all_contracts(), "C09", tier, seed)
+    engine_b.discharge(rep, kf, [pc.conflicts_contract(), pc.iter_all_parameters_contract()] + creg.all_contracts(), "C09", tier, seed)
     from props.common import run_bounded, discharge_parallel
     import contracts.enum_values as cev
     discharge_parallel(rep, kf, [cev.values_contract()], "C09", tier, seed)
@@ -27,8 +27,8 @@ def run(rep, kf, tier, seed):
     rep.trusted.extend(TRUSTED)
     rep.assumptions.extend([
         "_check_parameters_for_conflicts: Endpoint.iter_all_parameters yields every parameter exactly once as (location, "
-        "property) and parameter objects are pairwise distinct (assumed contract of the generator method); the location "
-        "enum formats as its value (StrEnum)",
+        "property) -- proved by its own contract (generator run eagerly); assumed: parameter objects are pairwise distinct, "
+        "the location enum formats as its value (StrEnum)",
         "_check_parameters_for_conflicts residual, not proved: a parameter already recorded in modified_params is renamed by "
         "the reserved-name branch in the last pass (needs a history invariant over earlier passes); covered only by the "
         "bounded stand-in param_conflicts",
